@@ -172,7 +172,7 @@ Section LV.
 
   Definition ext (s : node) : Prop :=
     Forall (cm_msg (n_commit s)) (n_msgs s) /\
-    True /\ ((n_commit s = n_commit s0 \/ n_commit s = 0) \/ fc_ev s \/ lead_ev s) /\
+    True /\ (n_commit s <= n_commit s0 \/ fc_ev s \/ lead_ev s) /\
     (n_role s = Leader -> pk s).
 
   Record inv (s : node) : Prop := mk_inv {
@@ -254,7 +254,7 @@ Section LV.
     - destruct E3 as [X | [X | X]]; [left; exact X | right; left | ].
       + destruct X as [cm [idx [h [m0 [A1 [A2 [A3 [A4 A5]]]]]]]]. exists cm, idx, h, m0. rewrite Hc, Hm. repeat split; auto.
         apply in_or_app. left. exact A3.
-      + destruct Hcf as [Hcf | Hcf]; [right; right | left; left; exact Hcf].
+      + destruct Hcf as [Hcf | Hcf]; [right; right | left; rewrite Hcf; apply N.le_refl].
         destruct X as [B1 [B2 [B3 [c [Q [B4 B5]]]]]]. unfold lead_ev, pjust, strong, llen in *. rewrite Hc, Hl, Ht, Hcf, Hp, Hi.
         split; [| split; [exact B2 | split; [exact B3 | exists c, Q; split; [exact B4 | exact B5]]]].
         destruct Hr as [Hr | [Hr [St | Nl]]].
@@ -363,7 +363,7 @@ Section LV.
 
   (* ---------------------------------------------------------------- commit *)
   Definition cjust (s : node) (i : N) : Prop :=
-    forall r c, (i = n_commit s0 \/ i = 0) \/ fc_ev (set_commit s i r c) \/ lead_ev (set_commit s i r c).
+    forall r c, i <= n_commit s0 \/ fc_ev (set_commit s i r c) \/ lead_ev (set_commit s i r c).
 
   Lemma inv_commit s i r c : inv s -> n_commit s <= i -> cjust s i -> inv (set_commit s i r c).
   Proof.
@@ -1146,7 +1146,7 @@ Section LV.
 
   Lemma ext_reset y : n_commit y = n_commit s0 -> n_msgs y = [] -> n_role y <> Leader -> ext y.
   Proof.
-    intros Hc Hm Hr. unfold ext. rewrite Hc, Hm. split; [constructor|]. split; [exact Logic.I|]. split; [left; left; reflexivity|].
+    intros Hc Hm Hr. unfold ext. rewrite Hc, Hm. split; [constructor|]. split; [exact Logic.I|]. split; [left; apply N.le_refl|].
     intro X. contradiction.
   Qed.
 
@@ -1331,7 +1331,7 @@ Section LV.
       destruct I. constructor; simpl; try rewrite Hma; simpl; auto.
       + rewrite Hmsg. constructor.
       + destruct v_ext0 as [E1 [E2 [E3 E4]]]. unfold ext. simpl. split; [rewrite Hmsg; constructor|]. split; [exact E2|].
-        split; [left; left; exact Hcm | exact E4].
+        split; [left; rewrite Hcm; apply N.le_refl | exact E4].
   Qed.
 
   Lemma post_leader_propose s es :
@@ -1414,7 +1414,7 @@ Section LV.
     - destruct C as [C | C]; [left | right; exact C]. split; auto. apply init_latest_conf_nil; auto.
     - intro X. congruence.
     - left. constructor.
-    - unfold ext. simpl. split; [constructor|]. split; [exact Logic.I|]. split; [left; right; reflexivity | intro X; discriminate].
+    - unfold ext. simpl. split; [constructor|]. split; [exact Logic.I|]. split; [left; apply N.le_0_l | intro X; discriminate].
   Qed.
 
   Lemma post_new_core id cfg p : pinv p -> post (new_core id cfg p).
@@ -1435,7 +1435,7 @@ Section LV.
     - unfold LR. cbv zeta. left. reflexivity.
     - rewrite M. constructor.
     - left. rewrite M. constructor.
-    - unfold ext. rewrite M. split; [constructor|]. split; [exact Logic.I|]. split; [left; left; reflexivity|].
+    - unfold ext. rewrite M. split; [constructor|]. split; [exact Logic.I|]. split; [left; apply N.le_refl|].
       intro Hr. destruct (Pk Hr) as [P1 P2]. unfold pk. split; [exact P1|]. split; [exact P2|].
       intros p Hp. right. left. split; [split; auto|]. exists p. split; [apply peer_get_in; auto | reflexivity].
   Qed.
